@@ -6,6 +6,7 @@ package main
 import (
 	"fmt"
 	"os"
+	"regexp"
 	"sort"
 	"strconv"
 	"strings"
@@ -429,6 +430,7 @@ func genC05(c *Ctx) {
 	c.emitAssetDefs()
 	c.emitMpdDefs()
 	r := c.Rng
+	c05WholeDoc(c)
 	for ai := range vAssets {
 		a := &vAssets[ai]
 		for _, name := range a.MPDs {
@@ -461,7 +463,10 @@ func genC05(c *Ctx) {
 					if pd*1000%a.SegmentDurMS != 0 || (!c.Thorough() && pph == 30 && ai%2 == 0) {
 						continue
 					}
-					cf := mkCfg(r.Pick(0, 0, 61), r.Pick(60, 30, 25), 0, r.Pick(500, 1500, 3500, 0), r.PickS("tlt", "tln"))
+					cf := mkCfg(r.Pick(0, 0, 61), r.Pick(60, 30, 25), 0, r.Pick(500, 1500, 3500, 0), r.PickS("tlt", "tln", "n"))
+					if cf.mode == "n" {
+						cf = mkCfg(cf.startS, cf.tsbd, 0, 0, "n")
+					}
 					if cf.atoMS >= a.SegmentDurMS {
 						cf = mkCfg(cf.startS, cf.tsbd, 0, 500, cf.mode)
 					}
@@ -469,6 +474,12 @@ func genC05(c *Ctx) {
 					var nows []int64
 					for d := -int64(a.SegmentDurMS); d <= 2*int64(a.SegmentDurMS); d += 250 {
 						nows = append(nows, B+d, B+d+1)
+					}
+					// ... and around the instant the oldest Period leaves the time-shift window (its successor's start + tsbd)
+					if W := B + int64(cf.tsbd)*1000; W-int64(a.SegmentDurMS) > nows[len(nows)-1] {
+						for d := -int64(a.SegmentDurMS); d <= int64(a.SegmentDurMS); d += 250 {
+							nows = append(nows, W+d-1, W+d)
+						}
 					}
 					jobs = append(jobs, c05job{cf, -1, withPeriods(cf.s, pph, false), nows})
 					c.Count("c05-period-jobs")
@@ -528,7 +539,7 @@ func genC05(c *Ctx) {
 							c.Violate("pt-differs-content-same", fmt.Sprintf("publishTime %d -> %d but identical content", ppt, pt), rp, nil)
 						}
 						c05Edges(c, prev, m, rp)
-						if cf.mode == "n" && raw != prevRaw {
+						if cf.mode == "n" && raw != prevRaw && !strings.Contains(cs, "periods") {
 							c.Violate("number-mpd-changes", "plain $Number$ single-period MPD changed over time", rp, nil)
 						}
 					}
@@ -537,6 +548,83 @@ func genC05(c *Ctx) {
 			}
 		}
 	}
+}
+
+var ptAttrRe = regexp.MustCompile(`publishTime="([^"]*)"`)
+var patchLocRe = regexp.MustCompile(`(?s)<PatchLocation[^>]*>.*?</PatchLocation>`)
+
+// c05WholeDoc: the whole served document (not a projection of it), with the publishTime attribute and the PatchLocation
+// that embeds it blanked, over a dense sequence of instants and with the URL options that add elements outside the
+// timeline (UTCTiming of every kind, SCTE-35 announcement, generated subtitles, DRM, latency target, update period):
+// equal publishTime <=> equal document; a plain $Number$ single-period MPD is the same document at every instant.
+func c05WholeDoc(c *Ctx) {
+	getServer()
+	feats := []string{"", "utc_direct/", "utc_direct-ntp-head/", "utc_httpxsdate-httpiso/", "utc_none/", "scte35_1/", "timesubsstpp_en/", "eccp_cbcs/", "ltgt_3000/", "mup_2/", "spd_8/",
+		"utc_direct/ato_1/chunkdur_0.5/", "patch_60/utc_direct/", "snr_7/utc_direct/"}
+	for _, name := range []string{"testpic_2s", "testpic_8s", "gen_ntsc441"} {
+		a := findVAsset(name)
+		if a == nil || len(a.MPDs) == 0 {
+			continue
+		}
+		for fi, ft := range feats {
+			for mi, mode := range []string{"", "segtimeline_1/", "segtimelinenr_1/"} {
+				if !c.Thorough() && (fi+mi)%3 != 0 && !strings.Contains(ft, "utc_direct") {
+					continue
+				}
+				if strings.Contains(ft, "chunkdur") && a.SegmentDurMS <= 1000 {
+					continue
+				}
+				base := int64(a.LoopDurMS)*3 + 777
+				var prevDoc, prevPT, prevURL string
+				for d := int64(0); d <= int64(3*a.SegmentDurMS); d += int64(c.Rng.Pick(1, 37, 250, 499, a.SegmentDurMS/2)) {
+					u := fmt.Sprintf("/livesim2/%s%s%s/%s?nowMS=%d", mode, ft, a.AssetPath, a.MPDs[0], base+d)
+					res := doLive("GET", u)
+					c.Count("whole-doc")
+					if res.code != 200 {
+						c.Violate("mpd-not-served", fmt.Sprintf("MPD request fails: %d", res.code), []string{"# GET " + u}, nil)
+						break
+					}
+					body := string(res.body)
+					pt := ""
+					if m := ptAttrRe.FindStringSubmatch(body); m != nil {
+						pt = m[1]
+					}
+					doc := patchLocRe.ReplaceAllString(ptAttrRe.ReplaceAllString(body, `publishTime=""`), "<PatchLocation/>")
+					if prevURL != "" {
+						rp := []string{"# GET " + prevURL, "# GET " + u}
+						switch {
+						case pt == prevPT && doc != prevDoc:
+							c.Violate("pt-same-content-differs", fmt.Sprintf("same publishTime %s, but the documents differ (%s)", pt, firstDiff(prevDoc, doc)), rp, nil)
+						case pt != prevPT && doc == prevDoc:
+							c.Violate("pt-differs-content-same", fmt.Sprintf("publishTime %s -> %s but identical documents", prevPT, pt), rp, nil)
+						case mode == "" && !strings.Contains(ft, "patch") && (doc != prevDoc || pt != prevPT):
+							c.Violate("number-mpd-changes", fmt.Sprintf("plain $Number$ single-period MPD changed over time (%s)", firstDiff(prevDoc, doc)), rp, nil)
+						}
+					}
+					prevDoc, prevPT, prevURL = doc, pt, u
+				}
+			}
+		}
+	}
+}
+
+func firstDiff(a, b string) string {
+	i := 0
+	for i < len(a) && i < len(b) && a[i] == b[i] {
+		i++
+	}
+	lo := i - 40
+	if lo < 0 {
+		lo = 0
+	}
+	ha, hb := i+40, i+40
+	if ha > len(a) {
+		ha = len(a)
+	}
+	if hb > len(b) {
+		hb = len(b)
+	}
+	return fmt.Sprintf("at byte %d: %q vs %q", i, a[lo:ha], b[lo:hb])
 }
 
 // canonMPDContent: everything but publishTime (and the PatchLocation that embeds it).
